@@ -30,6 +30,9 @@ ScanNeverBreaks, BoundsMeanTheirColumn, AcceptedExact) and spec/MC_SchemaAccept.
 """
 from __future__ import annotations
 
+from decimal import Decimal
+from fractions import Fraction
+
 import json
 import os
 import shutil
@@ -203,7 +206,10 @@ def represent(t: str, v: Any) -> Tuple[str, Any]:
         return NO
     if t == "float":
         if isinstance(v, float):
-            return ("ok", f32(v))
+            r = f32(v)
+            if r in (float("inf"), float("-inf")) and v not in (float("inf"), float("-inf")):
+                return NO            # a finite value beyond the 32-bit range: storing it as infinity loses the value (range)
+            return ("ok", r)
         if isinstance(v, (int, bool)):
             try:
                 f = float(v)
@@ -316,12 +322,14 @@ UNCONVERTIBLE_VALUES: Dict[str, List[Any]] = {
 }
 # the specification's class "truncating": the conversion silently drops part of the value
 TRUNCATING_VALUES: Dict[str, List[Any]] = {
-    "long": [1.5, -0.5, 1e10 + 0.5],
-    "int": [1.5, -0.5],
-    "date": [1.5, datetime(2020, 1, 1, 12, 30)],
-    "timestamp": [1.5],
-    "time": [1.5],
-    "double": [], "float": [], "string": [], "boolean": [],
+    "long": [1.5, -0.5, 1e10 + 0.5, Decimal("1.5"), Fraction(3, 2), Decimal("-0.5")],
+    "int": [1.5, -0.5, Decimal("2.5"), Fraction(-7, 2)],
+    "date": [1.5, datetime(2020, 1, 1, 12, 30), Decimal("1.5")],
+    "timestamp": [1.5, Fraction(1, 2)],
+    "time": [1.5, Decimal("0.25")],
+    # finite values beyond the 32-bit float range would be stored as +-inf
+    "float": [1e39, -3.5e38, 1.7976931348623157e308],
+    "double": [], "string": [], "boolean": [],
 }
 CLASS_TABLE = {"narrow": NARROW_VALUES, "unconvertible": UNCONVERTIBLE_VALUES, "truncating": TRUNCATING_VALUES}
 TYPES = ["long", "int", "double", "float", "string", "date", "timestamp", "time", "boolean"]
